@@ -435,6 +435,7 @@ def part_emitters(ctx, eng):
                 ctx.prop('json/L%d/p%d/one-block-per-hunk' % (L, pi), o.state.pc, z3.BoolVal(True), mv, rp, twin=False)
                 continue
             blk = dict(zip(bf, blocks[0].items))
+            if os.environ.get('C12_DBG'): print('DBG', bf, repr(blocks[0])[:300])
             nrem = z3.Sum([z3.If(k == RES_, 1, 0) for k in kinds]) if kinds else z3.IntVal(0)
             nexp = z3.Sum([z3.If(k == EXP_, 1, 0) for k in kinds]) if kinds else z3.IntVal(0)
             ob, oe = blk['original_begin_line'].e, blk['original_end_line'].e
